@@ -103,6 +103,14 @@ func VH_EncodedField() {
 	}
 	v := vValue("v", n, lo)
 	vNotPlaceholder(v)
+	if long := vParam("long", 0); long > len(v) {
+		// a value of `long` bytes in all: a concrete stem, the symbolic bytes at its end
+		stem := make([]byte, long-len(v))
+		for i := range stem {
+			stem[i] = "/usr/local/share/some/long/name-"[i%32]
+		}
+		v = append(stem, v...)
+	}
 	want := append([]byte(nil), v...)
 	if c.key == "proctitle" {
 		for i := range want {
@@ -150,6 +158,13 @@ func VH_Execve() {
 	for i := 0; i < argc; i++ {
 		v := vValue("arg", n, 1)
 		vNotPlaceholder(v)
+		if long := vParam("long", 0); long > len(v) && i == argc-1 {
+			stem := make([]byte, long-len(v))
+			for k := range stem {
+				stem[k] = "--some-long-option=with/a/value+"[k%32]
+			}
+			v = append(stem, v...)
+		}
 		args = append(args, v)
 		text += " a" + strconv.Itoa(i) + "=" + vKernelEncode(v)
 	}
@@ -200,8 +215,18 @@ func VH_Saddr() {
 		for _, b := range path {
 			vAssume(b != 0)
 		}
+		if long := vParam("longpath", 0); long > 0 {
+			// a path of `long` bytes in all: a concrete stem, the symbolic bytes at its end
+			stem := make([]byte, long-len(path))
+			for i := range stem {
+				stem[i] = "/var/run/very/long/socket/path/"[i%31]
+			}
+			path = append(stem, path...)
+		}
 		raw = append(append([]byte{1, 0}, path...), 0)
-		if vChoose("trailing", 2) == 1 {
+		if vParam("noterm", 0) != 0 {
+			raw = raw[:len(raw)-1] // sun_path filled to the last byte: no terminator
+		} else if vChoose("trailing", 2) == 1 {
 			raw = append(raw, vBytes("garbage", 2)...) // bytes after the terminator are not part of the path
 		}
 	case 3: // AF_NETLINK
